@@ -272,7 +272,71 @@ class _RetRewrite(ast.NodeTransformer):
         return out
 
 
-def expand_call(helper: ast.AST, call: ast.Call, target: ast.expr | None, caller_names: set[str], uid: int, is_method: bool) -> list[ast.stmt] | None:
+def _ends_with_return(body: list[ast.stmt]) -> bool:
+    if not body:
+        return False
+    last = body[-1]
+    if isinstance(last, (ast.Return, ast.Raise)):
+        return True
+    if isinstance(last, ast.If) and last.orelse:
+        return _ends_with_return(last.body) and _ends_with_return(last.orelse)
+    return False
+
+
+def _nest_early_returns(body: list[ast.stmt]) -> list[ast.stmt]:
+    """`if c: A; return x` followed by REST  ->  `if c: A; return x` / `else: REST`  (recursively), so that every
+    return ends up in tail position of an if/else tree."""
+    out: list[ast.stmt] = []
+    for i, st in enumerate(body):
+        if isinstance(st, ast.If):
+            st.body = _nest_early_returns(st.body)
+            st.orelse = _nest_early_returns(st.orelse) if st.orelse else []
+            rest = body[i + 1:]
+            if rest and _ends_with_return(st.body) and not st.orelse:
+                st.orelse = _nest_early_returns(rest)
+                out.append(st)
+                return out
+            if rest and st.orelse and _ends_with_return(st.orelse) and not _ends_with_return(st.body):
+                st.body = st.body + _nest_early_returns(rest)
+                out.append(st)
+                return out
+        out.append(st)
+    return out
+
+
+def _push_returns(body: list[ast.stmt], target: ast.expr | None) -> list[ast.stmt] | None:
+    """If every return of the body is in tail position of an if/else tree, turn each `return e` into `target = e`
+    (or drop it); None if some return is elsewhere (inside try/with/loop ...)."""
+    def conv(b: list[ast.stmt]) -> list[ast.stmt] | None:
+        if not b:
+            return [ast.Assign(targets=[copy.deepcopy(target)], value=ast.Constant(value=None))] if target is not None else []
+        head, last = b[:-1], b[-1]
+        if any(isinstance(x, ast.Return) for st in head for x in ast.walk(st)):
+            return None
+        if isinstance(last, ast.Return):
+            if target is not None:
+                return head + [ast.Assign(targets=[copy.deepcopy(target)], value=last.value if last.value is not None else ast.Constant(value=None))]
+            if last.value is not None and not isinstance(last.value, (ast.Constant, ast.Name)):
+                return head + [ast.Expr(value=last.value)]
+            return head
+        if isinstance(last, ast.If) and any(isinstance(x, ast.Return) for x in ast.walk(last)):
+            a = conv(last.body)
+            c = conv(last.orelse)
+            if a is None or c is None:
+                return None
+            last.body = a or [ast.Pass()]
+            last.orelse = c
+            return head + [last]
+        if any(isinstance(x, ast.Return) for x in ast.walk(last)):
+            return None
+        # falls off the end: value None
+        tail = [ast.Assign(targets=[copy.deepcopy(target)], value=ast.Constant(value=None))] if target is not None else []
+        return b + tail
+
+    return conv(body)
+
+
+def expand_call(helper: ast.AST, call: ast.Call, target: ast.expr | None, caller_names: set[str], uid: int, is_method: bool, keep_returns: bool = False) -> list[ast.stmt] | None:
     """Statements equivalent to `target = helper(*call.args)` (target None: value discarded)."""
     h = copy.deepcopy(helper)
     params = [a.arg for a in h.args.args]  # type: ignore[attr-defined]
@@ -315,8 +379,19 @@ def expand_call(helper: ast.AST, call: ast.Call, target: ast.expr | None, caller
             ren[v] = f"{v}__{h.name}{uid}"  # type: ignore[attr-defined]
     body = _strip_doc(h.body)  # type: ignore[attr-defined]
     body = [_Subst(ren).visit(st) for st in body]
+    if keep_returns:
+        # `return helper(...)`: returning from the helper is returning from the caller - splice the body as it is
+        out0 = pre + body
+        if not body or not isinstance(body[-1], (ast.Return, ast.Raise)):
+            out0.append(ast.Return(value=None))
+        return out0
+    body = _nest_early_returns(body)
     rets = _returns(body)
     tail_only = len(rets) == 0 or (len(rets) == 1 and body and body[-1] is rets[0])
+    if not tail_only:
+        pushed = _push_returns(body, target)
+        if pushed is not None:
+            return (pre + pushed) or [ast.Pass()]
     if tail_only:
         if rets:
             r = body.pop()
@@ -397,8 +472,58 @@ class _Replace(ast.NodeTransformer):
         return self.generic_visit(node)
 
 
-def inline_in_function(fn: ast.AST, helpers: dict[str, tuple[ast.AST, bool]], counter: list[int], log: list[str]) -> bool:
+def _single_return_expr(h: ast.AST) -> ast.expr | None:
+    body = _strip_doc(h.body)  # type: ignore[attr-defined]
+    if len(body) == 1 and isinstance(body[0], ast.Return) and body[0].value is not None and not isinstance(h, ast.AsyncFunctionDef):
+        if not any(isinstance(x, (ast.Await, ast.NamedExpr, ast.Yield, ast.YieldFrom)) for x in ast.walk(body[0].value)):
+            return body[0].value
+    return None
+
+
+def inline_expressions(fn: ast.AST, helpers: dict[str, tuple[ast.AST, bool]], log: list[str]) -> bool:
+    """A helper whose body is `return <expr>` is an expression: replace its calls (simple arguments only) in place."""
     changed = False
+
+    class T(ast.NodeTransformer):
+        def visit_Call(self, node: ast.Call):  # noqa: N802
+            nonlocal changed
+            self.generic_visit(node)
+            name = _helper_name(node, helpers)
+            if name is None:
+                return node
+            h, is_m = helpers[name]
+            e = _single_return_expr(h)
+            if e is None or node.keywords or any(not isinstance(a, (ast.Name, ast.Attribute, ast.Constant, ast.Subscript)) for a in node.args):
+                return node
+            params = [a.arg for a in h.args.args]  # type: ignore[attr-defined]
+            static = bool(getattr(h, "decorator_list", None))
+            if is_m and not static:
+                params = params[1:]
+            if len(params) != len(node.args) or h.args.kwonlyargs or h.args.defaults:  # type: ignore[attr-defined]
+                return node
+            m = dict(zip(params, node.args))
+            uses = {}
+            for x in ast.walk(e):
+                if isinstance(x, ast.Name) and x.id in m:
+                    uses[x.id] = uses.get(x.id, 0) + 1
+            e2 = copy.deepcopy(e)
+
+            class S(ast.NodeTransformer):
+                def visit_Name(self, n: ast.Name):  # noqa: N802
+                    if n.id in m:
+                        return copy.deepcopy(m[n.id])
+                    return n
+
+            changed = True
+            log.append(f"{name} (expression) -> {getattr(fn, 'name', '?')}")
+            return ast.copy_location(S().visit(e2), node)
+
+    T().visit(fn)
+    return changed
+
+
+def inline_in_function(fn: ast.AST, helpers: dict[str, tuple[ast.AST, bool]], counter: list[int], log: list[str]) -> bool:
+    changed = inline_expressions(fn, helpers, log)
 
     def process(body: list[ast.stmt]) -> list[ast.stmt]:
         nonlocal changed
@@ -440,10 +565,7 @@ def inline_in_function(fn: ast.AST, helpers: dict[str, tuple[ast.AST, bool]], co
                     counter[0] += 1
                     uid = counter[0]
                     if kind == "return":
-                        tmp = ast.Name(id=f"_inl_ret{uid}", ctx=ast.Store())
-                        exp = expand_call(helpers[name][0], call, tmp, _names(fn), uid, helpers[name][1])
-                        if exp is not None:
-                            repl = exp + [ast.Return(value=ast.Name(id=tmp.id, ctx=ast.Load()))]
+                        repl = expand_call(helpers[name][0], call, None, _names(fn), uid, helpers[name][1], keep_returns=True)
                     else:
                         repl = expand_call(helpers[name][0], call, target, _names(fn), uid, helpers[name][1])
                     if repl is not None:
@@ -648,6 +770,109 @@ def drop_type_checking(tree: ast.Module) -> int:
     return count
 
 
+# ------------------------------------------------------------------ N12 conditional-expression assignments
+def ifexp_to_if(tree: ast.Module) -> int:
+    """`x = a if c else b`  ->  `if c: x = a` / `else: x = b`   (also `x, y = (a, b) if c else (d, e)` and a call
+    statement whose single argument / receiver choice is a conditional expression is left alone)."""
+    count = 0
+
+    def split(st: ast.stmt) -> list[ast.stmt] | None:
+        if isinstance(st, ast.Assign) and isinstance(st.value, ast.IfExp):
+            v = st.value
+            a = ast.Assign(targets=copy.deepcopy(st.targets), value=v.body)
+            b = ast.Assign(targets=copy.deepcopy(st.targets), value=v.orelse)
+            return [ast.copy_location(ast.If(test=v.test, body=[ast.copy_location(a, st)], orelse=[ast.copy_location(b, st)]), st)]
+        if isinstance(st, ast.AnnAssign) and isinstance(st.value, ast.IfExp) and isinstance(st.target, ast.Name):
+            v = st.value
+            a = ast.Assign(targets=[copy.deepcopy(st.target)], value=v.body)
+            b = ast.Assign(targets=[copy.deepcopy(st.target)], value=v.orelse)
+            return [ast.copy_location(ast.If(test=v.test, body=[ast.copy_location(a, st)], orelse=[ast.copy_location(b, st)]), st)]
+        if isinstance(st, ast.Return) and isinstance(st.value, ast.IfExp):
+            v = st.value
+            return [ast.copy_location(ast.If(test=v.test, body=[ast.copy_location(ast.Return(value=v.body), st)], orelse=[ast.copy_location(ast.Return(value=v.orelse), st)]), st)]
+        return None
+
+    def process(body: list[ast.stmt]) -> list[ast.stmt]:
+        nonlocal count
+        out: list[ast.stmt] = []
+        for st in body:
+            for fld in ("body", "orelse", "finalbody"):
+                b = getattr(st, fld, None)
+                if isinstance(b, list) and b and isinstance(b[0], ast.stmt):
+                    setattr(st, fld, process(b))
+            for h in getattr(st, "handlers", []) or []:
+                h.body = process(h.body)
+            r = split(st)
+            if r is not None:
+                count += 1
+                out.extend(process(r))
+            else:
+                out.append(st)
+        return out
+
+    for n in ast.walk(tree):
+        if isinstance(n, FuncDef):
+            n.body = process(n.body)
+    return count
+
+
+# ------------------------------------------------------------------ N14 loops over a literal table
+def unroll_literal_loops(tree: ast.Module) -> int:
+    """`for a, b in ((x1, y1), (x2, y2)): BODY`  ->  BODY[a:=x1, b:=y1]; BODY[a:=x2, b:=y2]   (small literal tables,
+    body without break/continue/else, loop variables not reassigned)."""
+    count = 0
+
+    def process(body: list[ast.stmt]) -> list[ast.stmt]:
+        nonlocal count
+        out: list[ast.stmt] = []
+        for st in body:
+            for fld in ("body", "orelse", "finalbody"):
+                b = getattr(st, fld, None)
+                if isinstance(b, list) and b and isinstance(b[0], ast.stmt):
+                    setattr(st, fld, process(b))
+            for h in getattr(st, "handlers", []) or []:
+                h.body = process(h.body)
+            if (
+                isinstance(st, ast.For) and not st.orelse and isinstance(st.iter, (ast.Tuple, ast.List)) and 1 <= len(st.iter.elts) <= 8
+                and not any(isinstance(x, (ast.Break, ast.Continue, ast.Await, ast.Yield)) for b in st.body for x in ast.walk(b))
+            ):
+                tg = st.target
+                names = [tg.id] if isinstance(tg, ast.Name) else [e.id for e in tg.elts] if isinstance(tg, ast.Tuple) and all(isinstance(e, ast.Name) for e in tg.elts) else None
+                rows = []
+                okr = names is not None
+                if okr:
+                    for el in st.iter.elts:
+                        if isinstance(tg, ast.Name):
+                            rows.append([el])
+                        elif isinstance(el, (ast.Tuple, ast.List)) and len(el.elts) == len(names):
+                            rows.append(list(el.elts))
+                        else:
+                            okr = False
+                            break
+                stored = {x.id for b in st.body for x in ast.walk(b) if isinstance(x, ast.Name) and isinstance(x.ctx, ast.Store)}
+                if okr and not (stored & set(names or [])) and all(isinstance(v, (ast.Name, ast.Attribute, ast.Constant, ast.Tuple)) for r in rows for v in r):
+                    for r in rows:
+                        m = dict(zip(names, r))
+
+                        class S(ast.NodeTransformer):
+                            def visit_Name(self, n: ast.Name):  # noqa: N802
+                                if n.id in m and isinstance(n.ctx, ast.Load):
+                                    return copy.deepcopy(m[n.id])
+                                return n
+
+                        for b in st.body:
+                            out.append(S().visit(copy.deepcopy(b)))
+                    count += 1
+                    continue
+            out.append(st)
+        return out
+
+    for n in ast.walk(tree):
+        if isinstance(n, FuncDef):
+            n.body = process(n.body)
+    return count
+
+
 # ------------------------------------------------------------------ N5 extend(literal) -> appends
 def expand_extend(tree: ast.Module) -> int:
     """`xs.extend((a, b, c))` with a literal tuple/list argument  ->  `xs.append(a); xs.append(b); xs.append(c)`."""
@@ -798,6 +1023,14 @@ def normalize_trees(trees: dict[str, ast.Module]) -> dict[str, Any]:
     def n8() -> None:
         report["type_checking_blocks"] = sum(drop_type_checking(t) for t in trees.values())
 
+    def n12() -> None:
+        report["ifexp_assignments"] = sum(ifexp_to_if(t) for t in trees.values())
+
+    def n14() -> None:
+        report["unrolled_literal_loops"] = sum(unroll_literal_loops(t) for t in trees.values())
+
+    guarded("N12 conditional expressions", n12)
+    guarded("N14 literal loops", n14)
     guarded("N3 walrus", n3)
     guarded("N5 extend", n5)
     guarded("N8 TYPE_CHECKING", n8)
